@@ -252,7 +252,8 @@ def model_for(ctx: Any, m: dict[str, Any], n_inputs: int | None) -> dict[str, An
         unread = (not m.get("header")) and n_inputs == 0
         # the logs the method emitted before it raised are flushed in front of the init error (repaired, C08)
         pre = [["log", x["level"], x["text"], sorted([list(i) for i in x.get("extra", {}).items()])] for x in m.get("init_logs", [])]
-        return {"pipe": [] if unread else pre + [err], "sem": pre + [err]}
+        # (the drain of close() still delivers the logs that precede the error to on_log)
+        return {"pipe": pre if unread else pre + [err], "sem": pre + [err]}
     steps = m["steps"]
     if m["kind"] == "exchange":
         assert n_inputs is not None
@@ -330,10 +331,11 @@ def check_one(ctx: Any, desc: dict[str, Any], script: list[list[Any]]) -> None:
                 kind = by_name[n1]["kind"]
                 m1 = by_name[n1]
                 if (m1.get("init", "ok") != "ok" and not m1.get("header") and n_inputs[i] == 0
-                        and upto_first_error(e1) == [] and [e[0] for e in upto_first_error(e2)] == ["error"]):
+                        and all(e[0] == "log" for e in upto_first_error(e1)) and upto_first_error(e2)[:-1] == upto_first_error(e1)
+                        and upto_first_error(e2)[-1:] and upto_first_error(e2)[-1][0] == "error"):
                     ctx.fail({"service": desc, "script": script, "transports": [base, lab], "call_index": i, "method": n1},
                              "C01:init-error-unread:socket-close-without-read",
-                             f"header-less stream {n1} fails at init; opened and closed without a read: sockets observe nothing, "
+                             f"header-less stream {n1} fails at init; opened and closed without a read: sockets observe only its logs, "
                              f"{lab} raises {upto_first_error(e2)[0][1]} at open")
                     break
                 what = "logs" if obs_of(e1)["logs"] != obs_of(e2)["logs"] else ("datas" if obs_of(e1)["datas"] != obs_of(e2)["datas"] else "terminal")
@@ -364,7 +366,33 @@ def _corpus() -> list[tuple[dict[str, Any], list[list[Any]]]]:
     s1 = [["open", "p", 1], ["iter", None], ["close"], ["call", "u", 1], ["open", "x", 1], ["send", 0], ["send", 1], ["close"],
           ["open", "f", 1], ["iter", None], ["close"], ["call", "ue", 1], ["open", "h", 1], ["iter", None], ["close"], ["call", "u", 2]]
     s2 = [["open", "p", 1], ["iter", None], ["close"], ["open", "h", 1], ["iter", None], ["close"], ["open", "f", 1], ["iter", None], ["close"]]
-    return [(d1, s1), (d1, s2)]
+    out = [(d1, s1), (d1, s2)]
+    # boundary matrix: every (kind, header?, first/second step outcome, logs before it?) once, each opened, driven and closed.
+    # These are the places where the transports' code paths diverge (init response vs first tick, header vs first output,
+    # pending error vs data) — most of the defects repaired for C01/C04/C08 sat on one of these cells.
+    for kind in ("producer", "exchange"):
+        for hdr in (False, True):
+            ms: list[dict[str, Any]] = []
+            for pos in (0, 1):
+                for ai, act in enumerate([{"emit": {"id": 3}}, E("ValueError", "first"), "nothing", "finish", {"emit_finish": {"id": 4}}]):
+                    if kind == "exchange" and isinstance(act, dict) and "emit_finish" in act:
+                        continue
+                    for lg in (False, True):
+                        steps = [{"logs": [L("pre")], "act": {"emit": {"id": 1}}, "post": [L("post")]}] * pos
+                        emits = isinstance(act, dict) and ("emit" in act or "emit_finish" in act)
+                        steps = steps + [{"logs": [L("a"), L("b", "WARN", k="v")] if lg else [], "act": act, "post": [L("p")] if (lg and emits) else []}]
+                        if emits and "emit" in act:
+                            steps.append({"logs": [], "act": "finish" if kind == "producer" else {"emit": {"id": 8}}, "post": []})
+                        ms.append({"name": f"{kind[0]}{int(hdr)}{pos}{ai}{int(lg)}", "kind": kind, "header": hdr, "hdr": 11,
+                                   "init_logs": [L("il")] if lg else [], "init": "ok", "steps": steps})
+            sc: list[list[Any]] = []
+            for m in ms:
+                if kind == "producer":
+                    sc += [["open", m["name"], 1], ["iter", None], ["close"]]
+                else:
+                    sc += [["open", m["name"], 1]] + [["send", k] for k in range(len(m["steps"]))] + [["close"]]
+            out.append(({"methods": ms}, sc))
+    return out
 
 
 def run(ctx: Any) -> None:
